@@ -1,9 +1,10 @@
 (* C05 model driver: runs the extracted MetaModel at floats on one scenario per input line.
    Input :  META nd {kind periodic period sigma width gperiodic expand hardlo hardup lower upper nx}*nd
                  weight hill_width freq gfreq use_grids keep wt bias_temp kb step_zero dumpgrid
-                 nevents { S it rel cont x.. | W }*nevents
+                 nevents { S it rel cont x.. | W | R | B {lower upper nx}*nd }*nevents
             kind = 0 scalar (1 component), 1 3-vector, 2 unit vector (3 components); x.. = all components of
-            all variables; W = the state is written (write_state_data)
+            all variables; W = the state is written (write_state_data); R = restart (state written, read by a fresh
+            instance); B = restart with rebinGrids and the new boundaries
    Output:  one line; steps separated by " | ", fields of a step by " ; ":
             S energy f.. ; H nold nnew {it W c..}* ; O noffnew {it W c..}* ; G {nx lower upper}* [; E v* ; D v*] *)
 open Model
@@ -55,6 +56,12 @@ let () =
            for _ = 1 to nev do
              match next () with
              | "W" -> st := save_state fops c !st
+             | "R" -> st := restart_state fops c !st None
+             | "B" ->
+               let g' = List.init nd (fun _ ->
+                   let lower = nf () in let upper = nf () in let nx = ni () in
+                   { b_lower = lower; b_upper = upper; b_nx = z_of_int nx }) in
+               st := restart_state fops c !st (Some g')
              | _ ->
                let it = ni () in let rel = ni () in let cont = nb () in
                let x = List.map (fun n -> List.init n (fun _ -> nf ())) ncomp in
